@@ -34,8 +34,6 @@ def identity_rules(run, db):
                 return dom.func_atom(fi.name, list(args))
             return None
         dom.call_prysm = call_prysm
-        kw = {p: dom.sym(p) for p in f.params}
-        res = [p for p in it.run(f, kwargs=lambda: dict(kw)) if p.outcome == 'return']
         n = Rat(R.atom('n'))
         x = Rat(R.atom('x'))
         pv = {p: Rat(R.atom(p)) for p in pnames}
@@ -43,37 +41,46 @@ def identity_rules(run, db):
         def V(order, *params):
             return Rat(R.func(vname, [order] + list(params) + [x]))
         fam = PF.VALUE_FUNS[vq][0]
-        for p in res:
+
+        def explicit_der(k):
+            kk = Rat(R.const(k))
+            if k == 0:
+                return Rat(R.const(0))
+            if fam == 'jacobi':
+                return (kk + pv['alpha'] + pv['beta'] + 1) / 2 * dom.explicit('jacobi', {'alpha': pv.get('alpha', 0) + 1, 'beta': pv.get('beta', 0) + 1}, k - 1)
+            if fam == 'hermite_He':
+                return kk * dom.explicit(fam, {}, k - 1)
+            if fam == 'hermite_H':
+                return 2 * kk * dom.explicit(fam, {}, k - 1)
+            return -dom.explicit('laguerre', {'alpha': pv['alpha'] + 1}, k - 1)
+        # explicit small orders: the order is a concrete integer (whatever helpers the routine goes through, their tests are decided)
+        # and the value function is inlined, so the result is a polynomial compared with the reference derivative
+        dom.call_prysm = type(dom).call_prysm.__get__(dom)
+        for k in range(0, 4):
+            kwk = {p: dom.sym(p) for p in f.params}
+            kwk['n'] = Const(k)
+            resk = [p for p in it.run(f, kwargs=lambda: dict(kwk)) if p.outcome == 'return']
+            if len(resk) != 1 or dom.rat(resk[0].value) is None:
+                raise AnalysisError('%s(n=%d): expected one path with a value in NORM, got %d' % (qual, k, len(resk)))
+            got, want = dom.rat(resk[0].value), explicit_der(k)
+            run.check(got == want, 'C09.id', f.qual, 'order %d' % k, '%s(n=%d) equals the reference derivative' % (f.name, k),
+                      '%s(n=%d) returns %s, the derivative of the order-%d polynomial is %s' % (f.name, k, got.key(), k, want.key()), f.loc())
+        # general order: the value function summarised; only the path on which no special order is selected
+        dom.call_prysm = call_prysm
+        kw = {p: dom.sym(p) for p in f.params}
+        res = [p for p in it.run(f, kwargs=lambda: dict(kw)) if p.outcome == 'return']
+        import re
+        general = [p for p in res if not any(t and re.fullmatch(r'\w+ == \d+', c.strip()) for c, t in p.conds)]
+        decided = False
+        for p in general:
             got = dom.rat(p.value)
             if got is None:
-                raise AnalysisError('%s: value outside NORM on path %s' % (qual, p.conds))
-            k = None
-            for c, t in p.conds:
-                import re
-                m = re.fullmatch(r'n == (\d+)', c)
-                if m and t:
-                    k = int(m.group(1))
-            if k is not None:
-                # explicit small order: the reference derivative with explicit closed forms
-                kk = Rat(R.const(k))
-                got = got.subs({'n': kk})          # on this path n == k
-                if k == 0:
-                    want = Rat(R.const(0))
-                else:
-                    pv1 = {'jacobi': {'alpha': pv.get('alpha', 0) + 1, 'beta': pv.get('beta', 0) + 1} if fam == 'jacobi' else None}.get(fam)
-                    if fam == 'jacobi':
-                        want = (kk + pv['alpha'] + pv['beta'] + 1) / 2 * dom.explicit('jacobi', pv1, k - 1)
-                    elif fam == 'hermite_He':
-                        want = kk * dom.explicit(fam, {}, k - 1)
-                    elif fam == 'hermite_H':
-                        want = 2 * kk * dom.explicit(fam, {}, k - 1)
-                    else:
-                        want = -dom.explicit('laguerre', {'alpha': pv['alpha'] + 1}, k - 1)
-                run.check(got == want, 'C09.id', f.qual, 'order %d' % k, '%s(n=%d) equals the reference derivative' % (f.name, k),
-                          '%s(n=%d) returns %s, the derivative of the order-%d polynomial is %s' % (f.name, k, got.key(), k, want.key()), f.loc())
-            else:
-                want = ref(dom, n, pv, V)
-                run.check(got == want, 'C09.id', f.qual, 'general order', '%s: %s' % (f.name, text), '%s(n) = %s, expected %s (%s)' % (f.name, got.key(), want.key(), text), f.loc())
+                continue
+            decided = True
+            want = ref(dom, n, pv, V)
+            run.check(got == want, 'C09.id', f.qual, 'general order', '%s: %s' % (f.name, text), '%s(n) = %s, expected %s (%s)' % (f.name, got.key(), want.key(), text), f.loc())
+        if not decided and hasattr(run, 'info'):
+            run.info('C09.id: %s: the general-order identity is not decided (the value routine is reached through helpers); orders 0..3 are' % f.name)
 
 
 class Capture(Exception):
